@@ -535,4 +535,44 @@ theorem angle_mod_eq (a : Angle) (b : Operand) : angle_mod a b = modBody a.deg b
 
 theorem angle_rmod_eq (a : Angle) (b : Operand) : angle_rmod a b = modBody b.val a.deg := rfl
 
+/-- `reduce_dms` returns canonical fields that keep the magnitude up to whole turns, and the sign rule. -/
+theorem reduce_dms_fields (d m s : ℚ) :
+    ∃ (D M : ℤ) (S : ℚ), reduce_dms d m s = (D, M, S, dmsSign d m s) ∧
+      0 ≤ D ∧ D < 360 ∧ 0 ≤ M ∧ M < 60 ∧ 0 ≤ S ∧ S < 60 ∧
+      ∃ k : ℤ, |d| + |m| / 60 + |s| / 3600 = (D : ℚ) + (M : ℚ) / 60 + S / 3600 + 360 * k := by
+  rw [reduce_dms_closed]
+  set a := |d| with ha
+  set b := |m| with hb
+  set c := |s| with hc
+  have ha0 : 0 ≤ a := abs_nonneg d
+  have hb0 : 0 ≤ b := abs_nonneg m
+  have hc0 : 0 ≤ c := abs_nonneg s
+  have hfa0 := Int.fract_nonneg a
+  have hmin : 0 ≤ dmsMin a b := by unfold dmsMin; positivity
+  have hfm0 := Int.fract_nonneg (dmsMin a b)
+  have hsec : 0 ≤ dmsSec a b c := by unfold dmsSec; positivity
+  have e1 : ((⌊a⌋ : ℤ) : ℚ) + Int.fract a = a := Int.floor_add_fract a
+  have e2 : ((⌊dmsMin a b⌋ : ℤ) : ℚ) + Int.fract (dmsMin a b) = dmsMin a b := Int.floor_add_fract _
+  have e2' : dmsMin a b = b + Int.fract a * 60 := rfl
+  have e3 : dmsSec a b c = c + Int.fract (dmsMin a b) * 60 := rfl
+  have hq1 := Int.floor_le (dmsSec a b c / 60)
+  have hq2 := Int.lt_floor_add_one (dmsSec a b c / 60)
+  rw [le_div_iff₀ (by norm_num)] at hq1
+  rw [div_lt_iff₀ (by norm_num)] at hq2
+  have hM1 : dmsM1 a b c = ⌊dmsMin a b⌋ + ⌊dmsSec a b c / 60⌋ := rfl
+  set M1 := dmsM1 a b c with hM1d
+  have e5 : M1 = 60 * (M1 / 60) + M1 % 60 := (Int.mul_ediv_add_emod M1 60).symm
+  have m0 : 0 ≤ M1 % 60 := Int.emod_nonneg _ (by norm_num)
+  have m1 : M1 % 60 < 60 := Int.emod_lt_of_pos _ (by norm_num)
+  set T := ⌊a⌋ + M1 / 60 with hT
+  have e6 : T = 360 * (T / 360) + T % 360 := (Int.mul_ediv_add_emod T 360).symm
+  have t0 : 0 ≤ T % 360 := Int.emod_nonneg _ (by norm_num)
+  have t1 : T % 360 < 360 := Int.emod_lt_of_pos _ (by norm_num)
+  have hM1q : (M1 : ℚ) = ((⌊dmsMin a b⌋ : ℤ) : ℚ) + ((⌊dmsSec a b c / 60⌋ : ℤ) : ℚ) := by
+    rw [hM1]; push_cast; ring
+  have e5q : (M1 : ℚ) = 60 * ((M1 / 60 : ℤ) : ℚ) + ((M1 % 60 : ℤ) : ℚ) := by exact_mod_cast e5
+  have e6q : (T : ℚ) = 360 * ((T / 360 : ℤ) : ℚ) + ((T % 360 : ℤ) : ℚ) := by exact_mod_cast e6
+  have hTq : (T : ℚ) = ((⌊a⌋ : ℤ) : ℚ) + ((M1 / 60 : ℤ) : ℚ) := by rw [hT]; push_cast; ring
+  exact ⟨_, _, _, rfl, t0, t1, m0, m1, by linarith, by linarith, T / 360, by linarith⟩
+
 end Pymeeus.Refine
